@@ -172,8 +172,14 @@ def random_schedule(rng, emphasis):
     hn = 0
     first_req_mid = None
     q = 0
+    twoports = rng.random() < 0.3   # peers n and n + 10 share an address (and their message IDs) and differ in the port
+    if twoports:
+        for r in list(peer_mid):
+            peer_mid[r + 10] = peer_mid[r]
     for i in range(nreq):
         r = rng.randint(1, nrem)
+        if twoports and rng.random() < 0.5:
+            r += 10
         t += rng.choice([0, 1, 40, 200, 1000])
         kind = rng.choices(
             ["req", "ping", "unresp", "misfit", "matched", "mcreq"],
@@ -222,9 +228,18 @@ def random_schedule(rng, emphasis):
         elif kind == "mcreq":
             # the application asks for a (reliable) request to a multicast address: never a CON on the wire
             q += 1
-            steps.append({"at": t, "do": "submit", "q": q, "r": r, "con": rng.choice([True, None, False]), "mc": True})
+            steps.append({"at": t, "do": "submit", "q": q, "r": r if r < 10 else r - 10, "con": rng.choice([True, None, False]), "mc": True})
+            if rng.random() < 0.4:
+                steps[-1]["mtype"] = "CON"      # ... even when the application insists on the type itself
+            elif rng.random() < 0.6:
+                # a group member answers from its unicast address, confirmably or not: a matching response
+                rr = steps[-1]["r"]
+                triggers.append({"on": {"q": q, "copy": 1}, "delay": rng.choice([1, 50, 900]),
+                                 "rx": {"r": rr, "ty": rng.choice(["CON", "CON", "NON"]), "code": 69, "mid": mid, "tok": {"of": q}}})
         elif kind == "matched":
             q += 1
+            if r > 10:
+                r -= 10
             steps.append({"at": t, "do": "submit", "q": q, "r": r, "con": rng.choice([True, False]), "f": 0.5})
             rty = rng.choice(["CON", "CON", "NON", "ACK"])
             rx = {"r": r, "ty": rty, "code": 69, "mid": {"of": q} if rty == "ACK" else mid, "tok": {"of": q}}
@@ -238,10 +253,11 @@ def random_schedule(rng, emphasis):
                 triggers.append({"on": {"q": q, "copy": 1}, "delay": 2, "rx": {"r": r, "ty": "ACK", "code": 0, "mid": {"of": q}}})
     if collide and first_req_mid is not None:
         mid0 = (first_req_mid - rng.choice([0, 0, 1])) & 0xFFFF
-    # the peer acknowledges separate CON responses (most of the time)
+    # the peer acknowledges separate CON responses (most of the time), or rejects them
     for nth in range(1, 8):
         if rng.random() < 0.85:
-            triggers.append({"on": {"tx": {"ty": "CON", "cls": "resp", "nth": nth}}, "delay": rng.choice([1, 5, 600]), "rx": {"ty": "ACK", "code": 0, "mid": "same"}})
+            triggers.append({"on": {"tx": {"ty": "CON", "cls": "resp", "nth": nth}}, "delay": rng.choice([1, 5, 600]),
+                             "rx": {"ty": "ACK" if rng.random() < 0.8 else "RST", "code": 0, "mid": "same"}})
     steps.sort(key=lambda s: s["at"])
     return {
         "tuning": dict(REAL_TUNING),
@@ -253,6 +269,39 @@ def random_schedule(rng, emphasis):
         "triggers": triggers,
         "horizon": 400 * 1024,
     }
+
+
+def reject_schedule(rng):
+    """Two or three slow confirmable requests of one peer, all acknowledged by an empty ACK; their separate responses
+    queue up behind the first one (NSTART = 1), which the peer rejects with a Reset (or acknowledges late): the other
+    requests are still owed their separate responses."""
+    n = rng.choice([2, 2, 3])
+    steps, handlers = [], {}
+    for i in range(1, n + 1):
+        handlers[str(i)] = {"delay": 200 + 60 * i, "outcome": "ok", "len": 5}
+        steps.append({"at": 10 * i, "do": "rx", "r": 1, "ty": "CON", "code": 1, "mid": 500 + i, "tok": "b1%02x" % i, "path": ["h", str(i)]})
+    first = rng.choice(["RST", "RST", "ACK"])
+    trig = [{"on": {"tx": {"ty": "CON", "cls": "resp", "nth": 1}}, "delay": rng.choice([300, 700, 1500]), "rx": {"ty": first, "code": 0, "mid": "same"}}]
+    for nth in range(2, 6):
+        trig.append({"on": {"tx": {"ty": "CON", "cls": "resp", "nth": nth}}, "delay": rng.choice([1, 5, 300]),
+                     "rx": {"ty": rng.choice(["ACK", "ACK", "RST"]), "code": 0, "mid": "same"}})
+    return {"tuning": dict(REAL_TUNING), "mid0": rng.randint(0, 65535), "tok0": 9, "nremotes": 2,
+            "handlers": handlers, "steps": steps, "triggers": trig, "horizon": 400 * 1024}
+
+
+def load_schedule(rng, nfill):
+    """A request, `nfill` other requests from other endpoints, then copies of the first one (still well inside
+    EXCHANGE_LIFETIME): the endpoint's memory of what it has processed must not depend on how busy it is."""
+    steps = [{"at": 0, "do": "rx", "r": 1, "ty": "CON", "code": 1, "mid": 777, "tok": "a101", "path": ["h", "1"]},
+             {"at": 2, "do": "rx", "r": 2, "ty": "NON", "code": 1, "mid": 778, "tok": "a102", "path": ["h", "1"]}]
+    for i in range(nfill):
+        steps.append({"at": 10 + i, "do": "rx", "r": 3 + (i % 2), "ty": "NON", "code": 1, "mid": (1000 + i) & 0xFFFF,
+                      "tok": "f%03x" % i, "path": ["h", "2"], "nr": 26})
+    steps.append({"at": 20 + nfill, "do": "rx", "r": 1, "ty": "CON", "code": 1, "mid": 777, "tok": "a101", "path": ["h", "1"]})
+    steps.append({"at": 22 + nfill, "do": "rx", "r": 2, "ty": "NON", "code": 1, "mid": 778, "tok": "a102", "path": ["h", "1"]})
+    return {"tuning": dict(REAL_TUNING), "mid0": rng.randint(0, 65535), "tok0": 9, "nremotes": 4,
+            "handlers": {"1": {"delay": 0, "outcome": "ok", "len": 5}, "2": {"delay": 0, "outcome": "ok", "len": 0}},
+            "steps": steps, "triggers": [], "horizon": 400 * 1024}
 
 
 def sig_of(clause, sched):
@@ -307,6 +356,8 @@ def check(rep, args, prefix, emphasis):
             if res[0]["steps"]:
                 model_scheds.append(res)
         rand_scheds = [random_schedule(rng, emphasis) for _ in range(nrand)]
+        rand_scheds += [reject_schedule(rng) for _ in range(12 if quick else 120)]
+        rand_scheds += [load_schedule(rng, 600)] + ([] if quick else [load_schedule(rng, 1100), load_schedule(rng, 2500)])
         all_scheds = [s for s, _ in model_scheds] + rand_scheds
         results = run_all(all_scheds)
         for s, res in zip(all_scheds, results):
